@@ -52,8 +52,16 @@ func newReader(kind string, data []byte) readFn {
 			panic(err)
 		}
 		return func() (interface{}, bool, error) { f, err := r.Read(); return f, f == nil, err }
-	case "gff":
+	case "gff", "gff-no-time-format", "gff-other-time-format":
 		r := gff.NewReader(bytes.NewReader(data))
+		// TimeFormat is an exported option: empty means "do not parse dates", any other layout is
+		// handed to time.Parse
+		switch kind {
+		case "gff-no-time-format":
+			r.TimeFormat = ""
+		case "gff-other-time-format":
+			r.TimeFormat = "2006-01-02 15:04"
+		}
 		return func() (interface{}, bool, error) { f, err := r.Read(); return f, f == nil, err }
 	}
 	panic("unknown reader " + kind)
